@@ -51,6 +51,9 @@ class World:
             model.delete_agents(list(op["ids"]))
         elif kind == "configure":
             model.configure_agents([{"name": t, "count": c} for t, c in op["spec"]])
+        elif kind == "configure_bad":
+            # a reconfiguration that names an agent type nobody registered: raises half-way
+            model.configure_agents([{"name": t, "count": c} for t, c in op["spec"]])
         elif kind == "reset":
             model.reset()
         elif kind == "set_state":
@@ -113,6 +116,16 @@ def send(model, w, s, sender_id):
     w.sent.append((w.k, s["uid"], s["to"], s.get("delay")))
 
 
+class TeamAgent(ScriptAgent):
+    """an agent that creates its member agents while it is being initialised (nested creation)"""
+    MEMBERS = 2
+
+    def initialize(self):
+        super().initialize()
+        for _ in range(self.MEMBERS):
+            self.model.create_agent("a", None)
+
+
 class LoggingCollector(DataCollector):
     """the repository's collector; only logs that it was asked to collect"""
 
@@ -139,6 +152,7 @@ class ScriptModel(Model):
     def instantiate_model(self):
         for t in self.TYPES:
             self.register_agent_factory(t, (lambda tt: (lambda agent_id, model, properties: ScriptAgent(agent_id, model, properties, tt)))(t))
+        self.register_agent_factory("team", lambda agent_id, model, properties: TeamAgent(agent_id, model, properties, "team"))
         if isinstance(self.data_collector, LoggingCollector):
             self.data_collector.world = self.world
 
